@@ -4,6 +4,7 @@ import TantivyModel.Model.DocSet.SimpleUnion
 import TantivyModel.Model.DocSet.Intersection
 import TantivyModel.Model.DocSet.ReqOpt
 import TantivyModel.Model.DocSet.BufferedUnion
+import TantivyModel.Model.DocSet.Disjunction
 /-!
 Nestings: `Comb σ` is "one combinator (or none) over children of type `σ`"; `Level n` iterates it
 `n` times over the vector leaf. Every combinator model takes the children's `DS` as a parameter,
@@ -18,6 +19,7 @@ inductive Comb (σ : Type) where
   | inter (i : Inter.State σ)
   | excl (e : Exclude.State σ σ)
   | reqopt (r : ReqOpt.State σ σ)
+  | disj (d : Disj.State σ)
 
 namespace Comb
 variable {σ : Type}
@@ -34,6 +36,7 @@ def ds (C : DS σ) : DS (Comb σ) where
     | .inter i => (Inter.ds C).doc i
     | .excl e => (Exclude.ds C C).doc e
     | .reqopt r => (ReqOpt.ds C C).doc r
+    | .disj d => (Disj.ds C).doc d
   advance
     | .leaf s => .leaf (C.advance s)
     | .bunion u => .bunion ((BUnion.ds C H).advance u)
@@ -41,6 +44,7 @@ def ds (C : DS σ) : DS (Comb σ) where
     | .inter i => .inter ((Inter.ds C).advance i)
     | .excl e => .excl ((Exclude.ds C C).advance e)
     | .reqopt r => .reqopt ((ReqOpt.ds C C).advance r)
+    | .disj d => .disj ((Disj.ds C).advance d)
   seek t
     | .leaf s => .leaf (C.seek t s)
     | .bunion u => .bunion ((BUnion.ds C H).seek t u)
@@ -48,6 +52,7 @@ def ds (C : DS σ) : DS (Comb σ) where
     | .inter i => .inter ((Inter.ds C).seek t i)
     | .excl e => .excl ((Exclude.ds C C).seek t e)
     | .reqopt r => .reqopt ((ReqOpt.ds C C).seek t r)
+    | .disj d => .disj ((Disj.ds C).seek t d)
   seekDanger t
     | .leaf s => lift1 (C.seekDanger t) .leaf s
     | .bunion u => lift1 ((BUnion.ds C H).seekDanger t) .bunion u
@@ -55,6 +60,7 @@ def ds (C : DS σ) : DS (Comb σ) where
     | .inter i => lift1 ((Inter.ds C).seekDanger t) .inter i
     | .excl e => lift1 ((Exclude.ds C C).seekDanger t) .excl e
     | .reqopt r => lift1 ((ReqOpt.ds C C).seekDanger t) .reqopt r
+    | .disj d => lift1 ((Disj.ds C).seekDanger t) .disj d
   fillBuffer
     | .leaf s => lift1 C.fillBuffer .leaf s
     | .bunion u => lift1 (BUnion.ds C H).fillBuffer .bunion u
@@ -62,6 +68,7 @@ def ds (C : DS σ) : DS (Comb σ) where
     | .inter i => lift1 (Inter.ds C).fillBuffer .inter i
     | .excl e => lift1 (Exclude.ds C C).fillBuffer .excl e
     | .reqopt r => lift1 (ReqOpt.ds C C).fillBuffer .reqopt r
+    | .disj d => lift1 (Disj.ds C).fillBuffer .disj d
   fillBitset m
     | .leaf s => lift1 (C.fillBitset m) .leaf s
     | .bunion u => lift1 ((BUnion.ds C H).fillBitset m) .bunion u
@@ -69,6 +76,7 @@ def ds (C : DS σ) : DS (Comb σ) where
     | .inter i => lift1 ((Inter.ds C).fillBitset m) .inter i
     | .excl e => lift1 ((Exclude.ds C C).fillBitset m) .excl e
     | .reqopt r => lift1 ((ReqOpt.ds C C).fillBitset m) .reqopt r
+    | .disj d => lift1 ((Disj.ds C).fillBitset m) .disj d
   count
     | .leaf s => lift1 C.count .leaf s
     | .bunion u => lift1 (BUnion.ds C H).count .bunion u
@@ -76,6 +84,7 @@ def ds (C : DS σ) : DS (Comb σ) where
     | .inter i => lift1 (Inter.ds C).count .inter i
     | .excl e => lift1 (Exclude.ds C C).count .excl e
     | .reqopt r => lift1 (ReqOpt.ds C C).count .reqopt r
+    | .disj d => lift1 (Disj.ds C).count .disj d
   score
     | .leaf s => lift1 C.score .leaf s
     | .bunion u => lift1 (BUnion.ds C H).score .bunion u
@@ -83,6 +92,7 @@ def ds (C : DS σ) : DS (Comb σ) where
     | .inter i => lift1 (Inter.ds C).score .inter i
     | .excl e => lift1 (Exclude.ds C C).score .excl e
     | .reqopt r => lift1 (ReqOpt.ds C C).score .reqopt r
+    | .disj d => lift1 (Disj.ds C).score .disj d
 
 end Comb
 
@@ -103,6 +113,7 @@ inductive Tree where
   | inter (dense : Bool) (cs : List Tree)
   | excl (u : Tree) (es : List Tree)
   | reqopt (sum : Bool) (req opt : Tree)
+  | disj (sum : Bool) (minMatch : Nat) (cs : List Tree)
 
 /-- build the initial state of a tree at nesting level `n` (`none`: deeper than `n`, or an
 intersection of fewer than two) -/
@@ -115,6 +126,8 @@ def buildTree : (n : Nat) → Tree → Option (Level n)
       (fun l => .bunion (BUnion.build (levelDS n) Comb.H sum l))
   | n + 1, .sunion cs =>
     (cs.mapM (buildTree n)).map (fun l => .sunion (SimpleUnion.build (levelDS n) l))
+  | n + 1, .disj sum k cs =>
+    (cs.mapM (buildTree n)).map (fun l => .disj (Disj.new (levelDS n) sum k l))
   | n + 1, .inter dense cs =>
     match cs.mapM (buildTree n) with
     | some (l :: r :: os) => some (.inter (Inter.new (levelDS n) dense l r os))
